@@ -34,14 +34,51 @@ func (*Resolver).VisitBreakContinueStmt [C04]
   ensures r.LoopDepth != 0 ==> r.Module.Ast.Faulty == old(r.Module.Ast.Faulty)
 
 // a declaration whose name already exists in the scope is reported; a non-global public one as well
-func (*Resolver).VisitVarDecl [C04]
+func (*Resolver).VisitVarDecl [C04, C10]
   requires wfR(r) && decl != nil
+  requires r.Module.PublicDecls != nil
   callsite err requires existed || decl.IsPublic
   ensures existed ==> r.Module.Ast.Faulty
-func (*Resolver).VisitConstDecl [C04]
+  // C10 (export table, see below); LP: the initial value has been resolved, the name is about to be entered
+  at LP before call InsertDecl
+  ensures forall k string :: k != decl.NameTok.Literal ==> (mapHas(r.Module.PublicDecls, k) == at(LP, mapHas(r.Module.PublicDecls, k)) && r.Module.PublicDecls[k] == at(LP, r.Module.PublicDecls[k]))
+  ensures !decl.IsPublic ==> (mapHas(r.Module.PublicDecls, decl.NameTok.Literal) == at(LP, mapHas(r.Module.PublicDecls, decl.NameTok.Literal)) && r.Module.PublicDecls[decl.NameTok.Literal] == at(LP, r.Module.PublicDecls[decl.NameTok.Literal]))
+  ensures at(LP, mapHas(r.Module.PublicDecls, decl.NameTok.Literal)) ==> (mapHas(r.Module.PublicDecls, decl.NameTok.Literal) == at(LP, mapHas(r.Module.PublicDecls, decl.NameTok.Literal)) && r.Module.PublicDecls[decl.NameTok.Literal] == at(LP, r.Module.PublicDecls[decl.NameTok.Literal]))
+  ensures !(mapHas(r.Module.PublicDecls, decl.NameTok.Literal) == at(LP, mapHas(r.Module.PublicDecls, decl.NameTok.Literal)) && r.Module.PublicDecls[decl.NameTok.Literal] == at(LP, r.Module.PublicDecls[decl.NameTok.Literal])) ==> r.Module.PublicDecls[decl.NameTok.Literal] == decl
+func (*Resolver).VisitConstDecl [C04, C10]
   requires wfR(r) && decl != nil
+  requires r.Module.PublicDecls != nil
   callsite err requires existed || decl.IsPublic
   ensures existed ==> r.Module.Ast.Faulty
+  at LP before call InsertDecl
+  ensures forall k string :: k != decl.NameTok.Literal ==> (mapHas(r.Module.PublicDecls, k) == at(LP, mapHas(r.Module.PublicDecls, k)) && r.Module.PublicDecls[k] == at(LP, r.Module.PublicDecls[k]))
+  ensures !decl.IsPublic ==> (mapHas(r.Module.PublicDecls, decl.NameTok.Literal) == at(LP, mapHas(r.Module.PublicDecls, decl.NameTok.Literal)) && r.Module.PublicDecls[decl.NameTok.Literal] == at(LP, r.Module.PublicDecls[decl.NameTok.Literal]))
+  ensures at(LP, mapHas(r.Module.PublicDecls, decl.NameTok.Literal)) ==> (mapHas(r.Module.PublicDecls, decl.NameTok.Literal) == at(LP, mapHas(r.Module.PublicDecls, decl.NameTok.Literal)) && r.Module.PublicDecls[decl.NameTok.Literal] == at(LP, r.Module.PublicDecls[decl.NameTok.Literal]))
+  ensures !(mapHas(r.Module.PublicDecls, decl.NameTok.Literal) == at(LP, mapHas(r.Module.PublicDecls, decl.NameTok.Literal)) && r.Module.PublicDecls[decl.NameTok.Literal] == at(LP, r.Module.PublicDecls[decl.NameTok.Literal])) ==> r.Module.PublicDecls[decl.NameTok.Literal] == decl
+
+// ================= C10: the export table =================
+// Module.PublicDecls is what an importer can see (ast.IterateImportedDecls reads nothing else). A declaration visitor
+// changes at most the entry of the declaration's own name, only for a declaration marked public, never overwrites an
+// entry, and the entry it makes is the declaration itself.
+func (*Resolver).VisitStructDecl [C10]
+  requires wfR(r) && decl != nil && r.Module.PublicDecls != nil
+  at LP before call InsertDecl
+  ensures forall k string :: k != decl.NameTok.Literal ==> (mapHas(r.Module.PublicDecls, k) == at(LP, mapHas(r.Module.PublicDecls, k)) && r.Module.PublicDecls[k] == at(LP, r.Module.PublicDecls[k]))
+  ensures !decl.IsPublic ==> (mapHas(r.Module.PublicDecls, decl.NameTok.Literal) == at(LP, mapHas(r.Module.PublicDecls, decl.NameTok.Literal)) && r.Module.PublicDecls[decl.NameTok.Literal] == at(LP, r.Module.PublicDecls[decl.NameTok.Literal]))
+  ensures at(LP, mapHas(r.Module.PublicDecls, decl.NameTok.Literal)) ==> (mapHas(r.Module.PublicDecls, decl.NameTok.Literal) == at(LP, mapHas(r.Module.PublicDecls, decl.NameTok.Literal)) && r.Module.PublicDecls[decl.NameTok.Literal] == at(LP, r.Module.PublicDecls[decl.NameTok.Literal]))
+  ensures !(mapHas(r.Module.PublicDecls, decl.NameTok.Literal) == at(LP, mapHas(r.Module.PublicDecls, decl.NameTok.Literal)) && r.Module.PublicDecls[decl.NameTok.Literal] == at(LP, r.Module.PublicDecls[decl.NameTok.Literal])) ==> r.Module.PublicDecls[decl.NameTok.Literal] == decl
+func (*Resolver).VisitTypeAliasDecl [C10]
+  requires wfR(r) && decl != nil && r.Module.PublicDecls != nil
+  ensures forall k string :: k != decl.NameTok.Literal ==> (mapHas(r.Module.PublicDecls, k) == old(mapHas(r.Module.PublicDecls, k)) && r.Module.PublicDecls[k] == old(r.Module.PublicDecls[k]))
+  ensures !decl.IsPublic ==> (mapHas(r.Module.PublicDecls, decl.NameTok.Literal) == old(mapHas(r.Module.PublicDecls, decl.NameTok.Literal)) && r.Module.PublicDecls[decl.NameTok.Literal] == old(r.Module.PublicDecls[decl.NameTok.Literal]))
+  ensures old(mapHas(r.Module.PublicDecls, decl.NameTok.Literal)) ==> (mapHas(r.Module.PublicDecls, decl.NameTok.Literal) == old(mapHas(r.Module.PublicDecls, decl.NameTok.Literal)) && r.Module.PublicDecls[decl.NameTok.Literal] == old(r.Module.PublicDecls[decl.NameTok.Literal]))
+  ensures !(mapHas(r.Module.PublicDecls, decl.NameTok.Literal) == old(mapHas(r.Module.PublicDecls, decl.NameTok.Literal)) && r.Module.PublicDecls[decl.NameTok.Literal] == old(r.Module.PublicDecls[decl.NameTok.Literal])) ==> r.Module.PublicDecls[decl.NameTok.Literal] == decl
+func (*Resolver).VisitTypeDefDecl [C10]
+  requires wfR(r) && decl != nil && r.Module.PublicDecls != nil
+  ensures forall k string :: k != decl.NameTok.Literal ==> (mapHas(r.Module.PublicDecls, k) == old(mapHas(r.Module.PublicDecls, k)) && r.Module.PublicDecls[k] == old(r.Module.PublicDecls[k]))
+  ensures !decl.IsPublic ==> (mapHas(r.Module.PublicDecls, decl.NameTok.Literal) == old(mapHas(r.Module.PublicDecls, decl.NameTok.Literal)) && r.Module.PublicDecls[decl.NameTok.Literal] == old(r.Module.PublicDecls[decl.NameTok.Literal]))
+  ensures old(mapHas(r.Module.PublicDecls, decl.NameTok.Literal)) ==> (mapHas(r.Module.PublicDecls, decl.NameTok.Literal) == old(mapHas(r.Module.PublicDecls, decl.NameTok.Literal)) && r.Module.PublicDecls[decl.NameTok.Literal] == old(r.Module.PublicDecls[decl.NameTok.Literal]))
+  ensures !(mapHas(r.Module.PublicDecls, decl.NameTok.Literal) == old(mapHas(r.Module.PublicDecls, decl.NameTok.Literal)) && r.Module.PublicDecls[decl.NameTok.Literal] == old(r.Module.PublicDecls[decl.NameTok.Literal])) ==> r.Module.PublicDecls[decl.NameTok.Literal] == decl
 
 // assignment to a plain name: the name must be a declared variable and not a constant
 func (*Resolver).VisitAssignStmt [C04]
